@@ -827,9 +827,12 @@ Tier TierConfig(const std::string &tier) {
     // Above A2 + K2*U of a small stream, so that a creeping live peak reaches
     // the C18 bound before the budget refuses it.
     t.budget_bytes = 40ull << 20;
-    t.step_min = 10000000ull;
+    // A few hundred runs per batch exhaust the budget (undecided); 10e6 steps
+    // ended runs that were still growing an output vector towards the C18
+    // bound (defect #10 needed 58e6), so the patience is 80e6.
+    t.step_min = 80000000ull;
     t.step_mult = 500;
-    t.step_cap = 200000000ull;
+    t.step_cap = 400000000ull;
   }
   return t;
 }
